@@ -82,7 +82,12 @@ func (s *vFlatSys) Enabled() []vOp {
 	// Add(i, v) for the smallest unused id only would lose "ids in any order"; ids are
 	// interchangeable for the flat index except through restrictions, so every unused id is offered.
 	for _, id := range s.ids {
+		if _, live := s.m.live[id]; live {
+			continue
+		}
 		if s.m.ever[id] {
+			// update: a removed id is added again, with one (other) value
+			ops = append(ops, vOp{K: "Add", A: int(id), B: (int(id) + 1) % len(s.vals)})
 			continue
 		}
 		for vi := range s.vals {
@@ -90,7 +95,8 @@ func (s *vFlatSys) Enabled() []vOp {
 		}
 	}
 	for _, id := range s.ids {
-		ops = append(ops, vOp{K: "Remove", A: int(id)})
+		// B=1: the node handed to Remove carries some (other) vector; only its id counts
+		ops = append(ops, vOp{K: "Remove", A: int(id)}, vOp{K: "Remove", A: int(id), B: 1})
 	}
 	ops = append(ops, vOp{K: "Flush"})
 	return ops
@@ -109,10 +115,15 @@ func (s *vFlatSys) Apply(op vOp, hist []vOp, check bool) {
 		if err == nil {
 			s.m.live[uint32(op.A)] = vCopyVec(raw)
 			s.m.ever[uint32(op.A)] = true
+			delete(s.m.removed, uint32(op.A))
 		}
 	case "Remove":
 		id := uint32(op.A)
-		err := s.idx.Remove(*NewVectorNodeWithID(id, nil))
+		var carried []float32
+		if op.B == 1 {
+			carried = vCopyVec(s.vals[(int(id)+1)%len(s.vals)])
+		}
+		err := s.idx.Remove(*NewVectorNodeWithID(id, carried))
 		// whether Remove of an unknown id is an error is not part of C01; the model
 		// follows the acknowledged outcome.
 		if err == nil {
@@ -225,6 +236,7 @@ func init() {
 			for _, cfg := range []vVecCfg{{Kind: "flat", Metric: Euclidean, Dim: 2}, {Kind: "flat", Metric: Cosine, Dim: 3}, {Kind: "flat", Metric: L2Squared, Dim: 5}} {
 				cfg := cfg
 				sh = append(sh, vShard{Name: "sweep/" + strings.ReplaceAll(cfg.String(), " ", ","), Run: func(c *vCtx) { vKindSweep(c, cfg, maxN, nil) }})
+				sh = append(sh, vShard{Name: "large/" + strings.ReplaceAll(cfg.String(), " ", ","), Run: func(c *vCtx) { vKindLarge(c, cfg, vLargeSizes(tier), nil) }})
 			}
 			// deep-narrow shards: depth 6 (quick) / 7 (thorough) over 2 values and 3-4 ids in any order
 			for _, metric := range []DistanceKind{Euclidean, Cosine} {
@@ -242,6 +254,13 @@ func init() {
 		Replay: func(c *vCtx, v *vViolation) bool {
 			var metric string
 			var dim, nids int
+			if i := strings.Index(v.Config, " large n="); i >= 0 {
+				var n int
+				fmt.Sscanf(v.Config[i:], " large n=%d", &n)
+				vKindLarge(c, vParseVecCfg(v.Config[:i]), []int{n}, nil)
+				_, ok := c.viol[v.Sig()]
+				return ok
+			}
 			if i := strings.Index(v.Config, " sweep n="); i >= 0 {
 				var n int
 				fmt.Sscanf(v.Config[i:], " sweep n=%d", &n)
